@@ -91,6 +91,9 @@ class ChunkedReader:
         chunk_size, *chunk_ext = line.split(b";", 1)
         if chunk_ext:
             chunk_size = chunk_size.rstrip(b" \t")
+            # RFC9112 7.1.1: a chunk extension never contains bare CR, LF or NUL
+            if any(n in b"\0\r\n" for n in chunk_ext[0]):
+                raise InvalidChunkSize(line)
         if any(n not in b"0123456789abcdefABCDEF" for n in chunk_size):
             raise InvalidChunkSize(chunk_size)
         if len(chunk_size) == 0:
